@@ -6,7 +6,7 @@
     rest-of-cell codecs only in the last position of their cell, signed and big
     integers at least one bit wide. *)
 From Coq Require Import List NArith Arith Bool String.
-From Tongo Require Import Lib.Bits Model.TlbCore Model.TlbExt Generated.TlbTypes.
+From Tongo Require Import Lib.Bits Model.TlbCore Model.TlbExt Model.TlbTags Proofs.TlbNoEncP Generated.TlbTypes.
 Import ListNotations.
 Local Open Scope string_scope.
 
@@ -60,6 +60,79 @@ Theorem C03_gen_core_types_claimed :
      "tlb.VarUInteger1"; "tlb.VarUInteger16"; "tlb.VarUInteger32"; "tlb.Unary"; "tlb.Any";
      "tlb.AddressWithWorkchain"; "wallet.DataV5R1"; "wallet.SignedMsgBody";
      "abi.JettonMintMsgBody"; "abi.JettonBurnNotificationMsgBody"] = true.
+Proof. vm_compute. reflexivity. Qed.
+
+(** The decode-only types (hand-written decoder, reflection encoder) are exactly these: a
+    type silently gaining or losing its MarshalTLB changes the set and fails here. *)
+Definition expected_decode_only : list string :=
+  ["tlb.Block"; "tlb.BlockHeader"; "tlb.BlockInfo"; "tlb.BlockProof"; "tlb.BlockSignatures";
+   "tlb.BlockSignaturesPure"; "tlb.ConfigParam39"; "tlb.CryptoSignature"; "tlb.CryptoSignaturePair";
+   "tlb.DNSRecord"; "tlb.DNSText"; "tlb.McBlockExtra"; "tlb.McStateExtraOther"; "tlb.ShardState";
+   "tlb.SignedSertificate"; "tlb.ValidatorSignedTempKey"; "tlb.ValueFlow"; "tlb.VmTuple"; "tlb.VmTupleRef";
+   "abi.ChangeDnsRecordMsgBody"; "abi.ExtOutMsgBody"; "abi.JettonBurnMsgBody";
+   "abi.JettonInternalTransferMsgBody"; "abi.JettonNotifyMsgBody"; "abi.JettonTransferMsgBody";
+   "abi.PreprocessedWalletSignedV2ExtInMsgBody"; "abi.PreprocessedWalletV2MsgInner"; "abi.W5Actions";
+   "abi.W5ExtendedActions"; "abi.WalletExtensionActionV5R1MsgBody"; "abi.WalletSignedExternalV5R1ExtInMsgBody";
+   "abi.WalletSignedInternalV5R1MsgBody"; "abi.WalletSignedV3ExtInMsgBody"; "abi.WalletSignedV4ExtInMsgBody";
+   "abi.WalletV1ToV4Payload"].
+
+Fixpoint strings_eqb (a b : list string) : bool :=
+  match a, b with
+  | [], [] => true
+  | x :: a', y :: b' => String.eqb x y && strings_eqb a' b'
+  | _, _ => false
+  end.
+
+Theorem C03_gen_decode_only_set : strings_eqb (map fst tlb_decode_only) expected_decode_only = true.
+Proof. vm_compute. reflexivity. Qed.
+
+(** Of these, the ones below are decode-side only BY THEOREM: their encoder-view descriptor
+    (what tlb.Marshal's reflection walk makes of today's struct definition) satisfies
+    [never_encodes], so by C03_never_encodes no value ever encodes - the property's "encoding
+    fails with an error" branch for every value.  A type of this list becoming encodable
+    (or another one joining it) changes the computed list and fails the obligation.
+    The remaining decode-only types either do encode and round-trip on every explored value
+    (the CryptoSignature family, McStateExtraOther), fail only by cell overflow (BlockInfo,
+    BlockHeader: not covered by the structural criterion), or have no encoder-view descriptor. *)
+Definition expected_never_encode : list string :=
+  ["tlb.DNSText"; "tlb.ValueFlow"; "abi.PreprocessedWalletSignedV2ExtInMsgBody";
+   "abi.PreprocessedWalletV2MsgInner"; "abi.W5Actions"; "abi.W5ExtendedActions";
+   "abi.WalletSignedV3ExtInMsgBody"; "abi.WalletSignedV4ExtInMsgBody"; "abi.WalletV1ToV4Payload"].
+
+Theorem C03_gen_never_encode_set :
+  strings_eqb (map fst (filter (fun p => never_encodes (fuel_of [] (snd p)) (snd p)) tlb_decode_only_view))
+              expected_never_encode = true.
+Proof. vm_compute. reflexivity. Qed.
+
+(** Every struct tag of the shipped types is read by the library's parsers exactly as the
+    model of the tag grammar (Model/TlbTags.v) reads it: tlb.ParseTag on all constructor
+    and Magic tags, parseTag on all field tags; every tag parses, and its value fits its
+    length (what the descriptors and wf_ty rely on). *)
+Definition opt_tag_eqb (a b : option (nat * N)) : bool :=
+  match a, b with
+  | Some (l, v), Some (l', v') => Nat.eqb l l' && N.eqb v v'
+  | None, None => true
+  | _, _ => false
+  end.
+
+(* tags the library's own ParseTag rejects (ErrInvalidTag): only the bare "_" of ShardState's
+   context-dependent constructor, which has a hand-written decoder and is not claimed *)
+Definition unparsable_tags : list string := ["_"].
+
+Theorem C03_gen_sum_tags_parse :
+  forallb (fun p => opt_tag_eqb (parse_tag (fst p)) (snd p)) tlb_sum_tags = true /\
+  forallb (fun p => match snd p with
+                    | Some t => tag_fits t
+                    | None => existsb (String.eqb (fst p)) unparsable_tags
+                    end) tlb_sum_tags = true /\
+  (100 <=? List.length tlb_sum_tags)%nat = true.
+Proof. vm_compute. repeat split. Qed.
+
+Theorem C03_gen_field_tags_parse :
+  forallb (fun p => match parse_field_tag (fst p), snd p with
+                    | Some t, Some (r, m, mr) => Bool.eqb (ft_ref t) r && Bool.eqb (ft_maybe t) m && Bool.eqb (ft_maybe_ref t) mr
+                    | _, _ => false
+                    end) tlb_field_tags = true.
 Proof. vm_compute. reflexivity. Qed.
 
 (* printed into the log of every run: what is NOT covered, by name *)
